@@ -322,6 +322,9 @@ func (vc *VC) load(fr *frame, st *State, ptr Val, t types.Type, pos token.Pos) V
 		return vc.loadMem(st, a.Ref, a.ET)
 	case AGlobal:
 		return vc.loadGlobal(st, a.Glob)
+	case AArr:
+		vc.note("whole-array load of a heap array: value unconstrained")
+		return vc.freshVal(st, t, "arrayval")
 	}
 	panic("load")
 }
@@ -399,6 +402,9 @@ func (vc *VC) store(fr *frame, st *State, ptr Val, t types.Type, v Val, pos toke
 		vc.written[memMapKey(a.ET)] = true
 	case AGlobal:
 		vc.storeGlobal(st, a.Glob, v)
+	case AArr:
+		vc.note("whole-array store into a heap array: not recorded")
+		vc.unsound("whole-array store into heap array")
 	}
 }
 
@@ -599,6 +605,14 @@ func (vc *VC) execAlloc(fr *frame, st *State, x *ssa.Alloc) {
 		fr.vals[x] = scalar(ref)
 		return
 	}
+	if at, isArr := t.Underlying().(*types.Array); isArr && !isBasicInt(at.Elem()) {
+		// arrays of pointers, interfaces, slices or structs (variadic argument packs, literals) live in the
+		// heap like slice backing arrays
+		arr := vc.newRef(st, "array")
+		vc.zeroElems(st, arr, at.Elem())
+		fr.vals[x] = Val{K: VAddr, A: &Addr{K: AArr, Arr: arr, ET: at.Elem(), N: at.Len()}}
+		return
+	}
 	if x.Heap && allocEscapes(x) {
 		ref := vc.newRef(st, shortLabel(typeKey(t)))
 		z := vc.zeroVal(st, t)
@@ -705,6 +719,12 @@ func (vc *VC) execIndexAddr(fr *frame, st *State, x *ssa.IndexAddr) Val {
 	case *types.Pointer:
 		at := bt.Elem().Underlying().(*types.Array)
 		vc.check(st, "bounds", "index", "array index in range", p.And(p.Le(p.Int(0), idx), p.Lt(idx, p.Int(at.Len()))), x.Pos())
+		if base.K == VAddr && base.A.K == AArr {
+			if _, ok := structOf(at.Elem()); ok {
+				return scalar(vc.elemRef(st, base.A.Arr, idx, at.Elem()))
+			}
+			return Val{K: VAddr, A: &Addr{K: AElem, Arr: base.A.Arr, Index: idx, ET: at.Elem()}}
+		}
 		if base.K == VAddr && base.A.K == ACell && base.A.Index == nil {
 			a := *base.A
 			a.Index = idx
@@ -793,6 +813,9 @@ func (vc *VC) execSlice(fr *frame, st *State, x *ssa.Slice) Val {
 			hi = n
 		}
 		vc.check(st, "bounds", "arrslice", "array slice bounds in range", p.And(p.Le(p.Int(0), lo), p.Le(lo, hi), p.Le(hi, n)), x.Pos())
+		if base.K == VAddr && base.A.K == AArr {
+			return Val{K: VSlice, Arr: base.A.Arr, Off: lo, Len: p.Sub(hi, lo), Cap: p.Sub(n, lo)}
+		}
 		// a slice view of an addressable array: materialise a backing array holding the array's bytes
 		var content *Term
 		var org *Addr
@@ -820,7 +843,7 @@ func (vc *VC) execSlice(fr *frame, st *State, x *ssa.Slice) Val {
 			// an array value is determined by its elements (left inverse of the element view)
 			vc.assumeGlobal(p.Eq(p.App("arrofelems", SInt, elems), content))
 			if b, isB := at.Elem().Underlying().(*types.Basic); isB && b.Kind() == types.Uint8 {
-				vc.assumeGlobal(p.Eq(p.App("arrofbytes$"+typeKey(bt.Elem()), SInt, p.App("bcontent", SInt, elems, p.Int(0), p.Int(at.Len()))), content))
+				vc.assumeGlobal(p.Eq(p.App("arrofbytes$"+typeKey(bt.Elem().Underlying()), SInt, p.App("bcontent", SInt, elems, p.Int(0), p.Int(at.Len()))), content))
 			}
 		}
 		vc.heapSet(st, k, p.Store(m, arr, elems))
@@ -1336,8 +1359,13 @@ func (vc *VC) arrayBytes(content *Term, at *types.Array, t types.Type) *Term {
 	c := p.App("bcontent", SInt, elems, p.Int(0), p.Int(at.Len()))
 	if !vc.typed[c] {
 		vc.typed[c] = true
-		vc.assumeGlobal(p.Eq(p.App("arrofbytes$"+typeKey(t), SInt, c), content))
+		vc.assumeGlobal(p.Eq(p.App("arrofbytes$"+typeKey(t.Underlying()), SInt, c), content))
 		vc.assumeGlobal(p.Eq(p.App("strlen", SInt, c), p.Int(at.Len())))
 	}
 	return c
+}
+
+func isBasicInt(t types.Type) bool {
+	b, ok := t.Underlying().(*types.Basic)
+	return ok && b.Info()&(types.IsInteger|types.IsBoolean) != 0
 }
